@@ -161,8 +161,9 @@ PROPS = {
     "C02": dict(stages=["tables", "lr", "mci_lr"],
                 viol=lambda res: _trace_viol(res, "lr", "c02") + _mci_viol(res, "mci_lr", "C02")
                 + _wf_viol(res, "C02")),
-    "C03": dict(stages=["tables", "glr"],
-                viol=lambda res: _trace_viol(res, "glr", "c03") + _table_viol("C03")(res)),
+    "C03": dict(stages=["tables", "glr", "mci_glr"],
+                viol=lambda res: _trace_viol(res, "glr", "c03") + _table_viol("C03")(res)
+                + _mci_viol(res, "mci_glr", "C03")),
     "C07": dict(stages=["tables", "glr"], viol=lambda res: _trace_viol(res, "glr", "c07")),
     "C04": dict(stages=["tables", "mci_lr"],
                 viol=lambda res: _table_viol("C04")(res) + _mci_viol(res, "mci_lr", "C04")),
